@@ -290,3 +290,16 @@ mod tests {
     impl MustBeThreadSafe for ProgressStyle {}
     impl MustBeThreadSafe for WeakProgressBar {}
 }
+
+/// Verification hooks (add-only): only present when built with `--cfg indicatif_verif`.
+#[cfg(indicatif_verif)]
+#[doc(hidden)]
+pub mod verif_hooks {
+    pub use crate::draw_target::verif_hooks as draw_target;
+    pub use crate::format::verif_hooks as format;
+    pub use crate::iter::verif_hooks as iter;
+    pub use crate::multi::verif_hooks as multi;
+    pub use crate::progress_bar::verif_hooks as progress_bar;
+    pub use crate::state::verif_hooks as state;
+    pub use crate::style::verif_hooks as style;
+}
